@@ -231,6 +231,38 @@ def gen_q(rng, n, d, real):
 # ----------------------------------------------------------------------------
 # adapters
 
+class _Skip(Exception):
+    """raised by `Guard` after an unexpected library exception has been recorded as a spec failure"""
+
+
+class Guard:
+    """lcp_lemke on a VALID input must not raise: any exception outside `allowed` (set by the streams that
+    expect one) is recorded with the full input as `unexpected_exception` and the case is skipped.  (An exception
+    raised inside the jitted kernel has no Python frame, so it has to be caught at the call.)"""
+
+    def __init__(self, f, ctx):
+        self.f, self.ctx, self.allowed = f, ctx, ()
+
+    def __call__(self, *a, **k):
+        try:
+            return self.f(*a, **k)
+        except self.allowed:
+            raise
+        except Exception as e:
+            def show(v):
+                if isinstance(v, np.ndarray):
+                    return {"values": v.tolist(), "dtype": str(v.dtype), "shape": list(v.shape)}
+                return repr(v)
+            names = ["M", "q", "d", "max_iter", "piv_options", "tableau", "basis", "z"]
+            rp = {names[i]: show(v) for i, v in enumerate(a)}
+            rp.update({kk: show(v) for kk, v in k.items() if kk not in ("tableau", "basis", "z")})
+            rp["buffers_supplied"] = [kk for kk in ("tableau", "basis", "z") if kk in k]
+            self.ctx.spec_fail("unexpected_exception",
+                               "lcp_lemke raised %s (%s) on a valid input" % (type(e).__name__, str(e)[:120]), rp)
+            self.ctx.count("unexpected-exception:" + type(e).__name__)
+            raise _Skip()
+
+
 def call_code(lcp_lemke, PivOptions, M, q, d, max_iter, tols=None):
     n = len(q)
     basis = np.full(n, -1, dtype=np.int_)
@@ -511,9 +543,10 @@ def forms_stream(ctx, lcp_lemke, PivOptions, cases, DEF_TOLS, classes):
                   "q_dtype": qdt, "q_layout": form.get("qlay", "C"), "d": None if df is None else dc.tolist(),
                   "max_iter": repr(mi_val), "piv_options": repr(pv), "buffers": buf}
             try:
-                res = lcp_lemke(*args, **kw)
+                res = lcp_lemke.f(*args, **kw)
             except Exception as e:      # every form of the menu is accepted by the clean code
-                ctx.spec_fail("form_rejected", "%s raised %s" % (fname, type(e).__name__), rp)
+                ctx.spec_fail("form_rejected" if isinstance(e, numba.core.errors.TypingError) else "unexpected_exception",
+                              "%s raised %s (%s)" % (fname, type(e).__name__, str(e)[:120]), rp)
                 continue
             ctx.count("form:" + fname)
             z = res.z
@@ -523,8 +556,11 @@ def forms_stream(ctx, lcp_lemke, PivOptions, cases, DEF_TOLS, classes):
                 ckw["max_iter"] = mi_can
             if pv is not None:
                 ckw["piv_options"] = PivOptions(1e-6, tols[0], tols[1])
-            can = lcp_lemke(np.ascontiguousarray(Mv, dtype=float), qc.copy(), None if dcan is None else dcan.copy(),
-                            **ckw)
+            try:
+                can = lcp_lemke(np.ascontiguousarray(Mv, dtype=float), qc.copy(),
+                                None if dcan is None else dcan.copy(), **ckw)
+            except _Skip:
+                continue
             same = (int(can.status) == int(res.status) and int(can.num_iter) == int(res.num_iter)
                     and np.asarray(can.z, dtype=float).tobytes() == np.asarray(z, dtype=float).tobytes())
             rp.update({"z": np.asarray(z).tolist(), "status": int(res.status), "num_iter": int(res.num_iter),
@@ -591,12 +627,15 @@ def forms_stream(ctx, lcp_lemke, PivOptions, cases, DEF_TOLS, classes):
     # forms the nopython signature does not accept: a TypingError every time, no damage afterwards
     Mr = np.array([[2.0, 1.0], [1.0, 3.0]])
     qr = np.array([-1.0, -2.0])
-    ref = lcp_lemke(Mr, qr).z.tobytes()
-    for rounds in range(ctx.n(1, 2)):
+    try:
+        ref = lcp_lemke(Mr, qr).z.tobytes()
+    except _Skip:
+        ref = None
+    for rounds in range(ctx.n(1, 2) if ref is not None else 0):
         for fname, mk in REJECTED_FORMS:
             a, k = mk(Mr, qr, None)
             try:
-                lcp_lemke(*a, **k)
+                lcp_lemke.f(*a, **k)
                 got = "accepted"
             except numba.core.errors.TypingError:
                 got = "TypingError"
@@ -605,20 +644,24 @@ def forms_stream(ctx, lcp_lemke, PivOptions, cases, DEF_TOLS, classes):
             ctx.count("rejected-form:%s:%s" % (fname, got))
             if got != "TypingError":
                 ctx.spec_fail("rejected_form", "form %s: expected a TypingError, got %s" % (fname, got), {"form": fname})
-            if lcp_lemke(Mr, qr).z.tobytes() != ref:
+            if lcp_lemke.f(Mr, qr).z.tobytes() != ref:
                 ctx.spec_fail("history_after_rejected_call", "a valid call answers differently after the rejected "
                               "form %s" % fname, {"form": fname})
     rejudge("end of the forms stream")
     # empty problem (n = 0): trivial branch, empty z
-    r0 = lcp_lemke(np.empty((0, 0)), np.empty(0))
-    if not (r0.success and r0.status == 0 and r0.num_iter == 0 and r0.z.shape == (0,)):
+    try:
+        r0 = lcp_lemke(np.empty((0, 0)), np.empty(0))
+    except _Skip:
+        r0 = None
+    if r0 is not None and not (r0.success and r0.status == 0 and r0.num_iter == 0 and r0.z.shape == (0,)):
         ctx.spec_fail("empty_problem", "n = 0 is not answered with an empty successful result", {})
     ctx.extra["kept_results_rejudged"] = len(kept)
 
 
 def run(ctx):
-    from quantecon.optimize.lcp_lemke import lcp_lemke
+    from quantecon.optimize.lcp_lemke import lcp_lemke as _raw_lcp_lemke
     from quantecon.optimize.linprog_simplex import PivOptions
+    lcp_lemke = Guard(_raw_lcp_lemke, ctx)
 
     rng = ctx.rng
     ctx.rule = ("random (M,q,d), n<=6 (5%: n in 7..10), 12% highly degenerate 0/+-1 problems, classes pd/p/psd/cop/gen x {int, dyadic, float} data, q modes "
@@ -631,7 +674,7 @@ def run(ctx):
 
     cases = []
     # (an anchor change escalates the quick tier to a mid-size run; the explicit thorough tier is larger)
-    n_cases = 40000 if ctx.tier == "thorough" else ctx.n(1500, 10000)
+    n_cases = 40000 if ctx.tier == "thorough" else ctx.n(1500 + 800, 10000)
     classes = ["pd", "p", "psd", "cop", "gen"]
 
     problems = []   # (cls, real, M, q, d, max_iter, qmode, tols)
@@ -670,6 +713,18 @@ def run(ctx):
     for cls, Mx, q, d in fixed:
         problems.append((cls, "int", np.array(Mx, dtype=float), np.array(q, dtype=float),
                          None if d is None else np.array(d), None, "fixed", None))
+
+    # exhaustive tiny scopes, every run: n = 1 with M[0,0], q in {negative, zero, positive} (and several d);
+    # n = 2 with every M in {-1,0,1}^(2x2) (zero / negative diagonals included) and q in {-1,0,1}^2
+    for m00 in (-2.0, -1.0, 0.0, 1.0, 3.0):
+        for q0 in (-2.0, -1.0, 0.0, 1.0):
+            for dv in (None, 0.5, 2.0):
+                c1 = "p" if m00 > 0 else ("psd" if m00 == 0 else "gen")
+                problems.append((c1, "int", np.array([[m00]]), np.array([q0]),
+                                 None if dv is None else np.array([dv]), None, "tiny-n1", None))
+    for ent in itertools.product((-1.0, 0.0, 1.0), repeat=4):
+        for qv in itertools.product((-1.0, 0.0, 1.0), repeat=2):
+            problems.append(("gen", "int", np.array(ent).reshape(2, 2), np.array(qv), None, None, "tiny-n2", None))
 
     # corpus of past disagreements / findings (runs first)
     import glob
@@ -721,12 +776,16 @@ def run(ctx):
     for cls, real, Mx, q, d, mi, qmode, tols in problems:
         n = len(q)
         in_before = (Mx.tobytes(), q.tobytes(), None if d is None else d.tobytes())
-        if real == "int" and np.all(Mx == np.round(Mx)) and np.all(q == np.round(q)) and rng.random() < 0.15:
-            # the test-suite passes integer arrays: same algorithm on an int64 signature
-            res, basis = call_code(lcp_lemke, PivOptions, Mx.astype(np.int64), q.astype(np.int64), d, mi, tols)
-            ctx.count("dtype:int64-arrays")
-        else:
-            res, basis = call_code(lcp_lemke, PivOptions, Mx, q, d, mi, tols)
+        as_int = real == "int" and np.all(Mx == np.round(Mx)) and np.all(q == np.round(q)) and rng.random() < 0.15
+        try:
+            if as_int:
+                # the test-suite passes integer arrays: same algorithm on an int64 signature
+                res, basis = call_code(lcp_lemke, PivOptions, Mx.astype(np.int64), q.astype(np.int64), d, mi, tols)
+                ctx.count("dtype:int64-arrays")
+            else:
+                res, basis = call_code(lcp_lemke, PivOptions, Mx, q, d, mi, tols)
+        except _Skip:
+            continue
         tol_piv, tol_diff = DEF_TOLS if tols is None else tols
         tp_bits, td_bits = fx(tol_piv), fx(tol_diff)
         ctx.count("tols:%s" % ("default" if tols is None else "%g,%g" % tols))
@@ -818,7 +877,10 @@ def run(ctx):
 
         # 3. first ratio test, observed through max_iter=1
         if nontriv and rng.random() < 0.5:
-            r1, b1 = call_code(lcp_lemke, PivOptions, Mx, q, d, 1, tols)
+            try:
+                r1, b1 = call_code(lcp_lemke, PivOptions, Mx, q, d, 1, tols)
+            except _Skip:
+                continue
             rows = [i for i in range(n) if b1[i] == 2 * n]
             impl = str(rows[0]) if len(rows) == 1 else "ERR:%s" % rows
             cases.append(Case("C11 firstrowf n=%d q=%s d=%s toldiff=%s" % (n, fxs(q), fxs(dd), td_bits), impl,
@@ -933,7 +995,11 @@ def run(ctx):
             kw = {} if mi is None else {"max_iter": mi}
             prior_z, prior_T, prior_b = zbuf.copy(), Tbuf.copy(), bbuf.copy()
             M0, q0, d0 = bits(Mx), bits(q), (None if d is None else bits(d))
-            res = lcp_lemke(Mx, q, d, tableau=Tbuf, basis=bbuf, z=zbuf, **kw)
+            try:
+                res = lcp_lemke(Mx, q, d, tableau=Tbuf, basis=bbuf, z=zbuf, **kw)
+                fresh = lcp_lemke(Mx.copy(), q.copy(), None if d is None else d.copy(), **kw)
+            except _Skip:
+                continue
             ctx.count("buffers:%s-branch" % ("trivial" if trivial else "pivoting"))
             ctx.count("buffers:status=%d" % int(res.status))
             rp = {"M": Mx.tolist(), "q": q.tolist(), "d": None if d is None else d.tolist(), "max_iter": mi,
@@ -947,7 +1013,6 @@ def run(ctx):
                     and (d is None or np.array_equal(bits(d), d0))):
                 ctx.spec_fail("inputs_mutated", "lcp_lemke modified M, q or d", rp)
             # 3. same answer as a call without buffers, bit for bit
-            fresh = lcp_lemke(Mx.copy(), q.copy(), None if d is None else d.copy(), **kw)
             same = (int(fresh.status) == int(res.status) and int(fresh.num_iter) == int(res.num_iter)
                     and bool(fresh.success) == bool(res.success)
                     and np.array_equal(bits(fresh.z), bits(res.z)))
@@ -990,7 +1055,10 @@ def run(ctx):
             # 6. only the z buffer supplied (dirty copy): same requirements
             if rng.random() < 0.4:
                 z2 = prior_z.copy() if rng.random() < 0.5 else np.full(n, np.nan)
-                r2 = lcp_lemke(Mx, q, d, z=z2, **kw)
+                try:
+                    r2 = lcp_lemke(Mx, q, d, z=z2, **kw)
+                except _Skip:
+                    continue
                 if r2.z.ctypes.data != z2.ctypes.data:
                     ctx.spec_fail("buffer_identity", "res.z is not the supplied z buffer (z= only)", rp)
                 if not np.array_equal(bits(r2.z), bits(fresh.z)) or int(r2.status) != int(fresh.status):
@@ -1037,15 +1105,21 @@ def run(ctx):
         mi = rng.choice([None, None, 50, 3])
         base = "n=%d M=%s q=%s d=%s maxiter=%d" % (n, fxm(Mx), fxs(q), fxs(d), 200 if mi is None else mi)
         line = "C11 lemkef %s tolpiv=%s toldiff=%s" % (base, fx(DEF_TOLS[0]), fx(DEF_TOLS[1]))
+        lcp_lemke.allowed = (ZeroDivisionError,)
         try:
             with np.errstate(all="ignore"):
                 res, basis = call_code(lcp_lemke, PivOptions, Mx, q, d, 200 if mi is None else mi, None)
+        except _Skip:
+            lcp_lemke.allowed = ()
+            continue
         except ZeroDivisionError:
+            lcp_lemke.allowed = ()
             # Numba's python error model: q[i]/d[i] with d[i] == 0
             ctx.count("bad-d:ZeroDivisionError")
             cases.append(Case(line, "ERR:ZeroDivisionError", tag="lemkef-bad-d"))
             cases.append(Case(line.replace("C11 lemkef", "C11 lemke"), "ERR:ZeroDivisionError", tag="lemke-bad-d"))
             continue
+        lcp_lemke.allowed = ()
         ctx.count("bad-d:status=%d" % int(res.status))
         if not np.all(np.isfinite(res.z)):
             ctx.count("bad-d:non-finite-z")
